@@ -1527,6 +1527,19 @@ class Protocol(utils.EventEmitter):
 
     def on_l2cap_channel_close(self) -> None:
         logger.debug(color('<<< L2CAP channel close', 'magenta'))
+
+        # No response will come anymore for the transactions in progress
+        for transaction_label, transaction_result in enumerate(
+            self.transaction_results
+        ):
+            if transaction_result is not None:
+                self.transaction_results[transaction_label] = None
+                self.transaction_semaphore.release()
+                if not transaction_result.done():
+                    transaction_result.set_exception(
+                        InvalidStateError('channel closed')
+                    )
+
         self.emit(self.EVENT_CLOSE)
 
     def send_message(self, transaction_label: int, message: Message) -> None:
